@@ -77,6 +77,30 @@ def main() -> None:
     h = _H(level=logging.WARNING)
     logging.getLogger().addHandler(h)
 
+    if args.get("trace_cache"):
+        # observation of the one-entry docstring cache at its linearisation point (return of the private lookup)
+        try:
+            import safeds_stubgen.api_analyzer  # noqa: F401
+            from safeds_stubgen.docstring_parsing import _docstring_parser as dp
+
+            rec["cache"] = []
+            name = "_DocstringParser__get_cached_docstring"
+            orig_lookup = getattr(dp.DocstringParser, name)
+
+            def lookup(self, qname):
+                res = orig_lookup(self, qname)
+                owner = "@none"
+                if res is not None:
+                    parent = getattr(res, "parent", None)
+                    owner = getattr(parent, "path", "@unknown") if parent is not None else "@detached"
+                if len(rec["cache"]) < 200000:
+                    rec["cache"].append([qname, owner])
+                return res
+
+            setattr(dp.DocstringParser, name, lookup)
+        except Exception as e:  # noqa: BLE001
+            rec["cache_error"] = f"{type(e).__name__}: {e}"
+
     sys.argv = ["safe-ds-stubgen", *args["argv"]]
     so = io.StringIO()
     old = sys.stdout
